@@ -442,6 +442,25 @@ func genUnit(r *rng, kind string, s string) unit {
 			sens("", fmt.Sprintf("def h_%s(x=1, y=(0.0, [1])):\n", s), fmt.Sprintf("def h_%s(x=1.0, y=(-0.0, [1.0])):\n", s), "default parameter values 1, 0.0 become 1.0, -0.0")
 		}
 		u.use = fmt.Sprintf("k_%s()", s)
+	case "slices":
+		// values that SHARE STORAGE in the interpreter without being the same value: t[:k] of a tuple points into
+		// t's backing array, so an encoder that memoises tuples by the address of their first element (without the
+		// length) collapses a tuple and its prefix (seeded change C08-r1). Editing k must change the fingerprint.
+		switch r.below(4) {
+		case 0:
+			u.defs = fmt.Sprintf("ALL_%s = (40030, 40031, 40032, \"x\")\nSOME_%s = ALL_%s[:2]\ndef k_%s():\n    return [ALL_%s, SOME_%s]\n", s, s, s, s, s, s)
+			sens("", fmt.Sprintf("SOME_%s = ALL_%s[:2]\n", s, s), fmt.Sprintf("SOME_%s = ALL_%s[:3]\n", s, s), "length of a prefix slice of a tuple the function also references")
+		case 1:
+			u.defs = fmt.Sprintf("ALL_%s = (40030, 40031, 40032, \"x\")\nSOME_%s = ALL_%s[:3]\ndef k_%s():\n    return [SOME_%s, ALL_%s]\n", s, s, s, s, s, s)
+			sens("", fmt.Sprintf("SOME_%s = ALL_%s[:3]\n", s, s), fmt.Sprintf("SOME_%s = ALL_%s[:4]\n", s, s), "prefix slice (visited first) grows to the whole tuple")
+		case 2:
+			u.defs = fmt.Sprintf("ALL_%s = ((1, 2), (3, 4), (5, 6))\nP_%s = {\"a\": ALL_%s[:1], \"b\": ALL_%s[:2], \"c\": ALL_%s}\ndef k_%s():\n    return P_%s\n", s, s, s, s, s, s, s)
+			sens("", fmt.Sprintf("\"b\": ALL_%s[:2],", s), fmt.Sprintf("\"b\": ALL_%s[:1],", s), "one of several prefix slices of a tuple of tuples, held in a dict")
+		default:
+			u.defs = fmt.Sprintf("ALL_%s = (40030, 40031, 40032)\ndef k_%s(x=ALL_%s, y=ALL_%s[:1]):\n    return [x, y]\n", s, s, s, s)
+			sens("", fmt.Sprintf("y=ALL_%s[:1]):\n", s), fmt.Sprintf("y=ALL_%s[:2]):\n", s), "prefix slice of a tuple as a default parameter value next to the tuple")
+		}
+		u.use = fmt.Sprintf("len(k_%s())", s)
 	case "hostkeys":
 		// hashable functions, builtins, bound methods, targets and structs as dict KEYS and set ELEMENTS (directly or inside a
 		// tuple key). functionEnv decodes what it encodes, and envUnpickler turns functions and structs into (unhashable) dicts:
@@ -556,7 +575,7 @@ func (u *unit) rebase(k int) {
 var unitKinds = []string{"const", "const", "global", "container", "container", "container", "shared", "fact", "mutual", "closure",
 	"defaults", "nested", "cyclic", "cyclic", "deep", "deep", "predeclared", "environ", "flag", "targetref", "cache", "labels", "helper",
 	"fncontainer", "lambdacycle", "samename", "kwonly", "signature", "builtinalias", "values", "fnvalues", "codecycle",
-	"recshared", "recshared", "hashed", "hashed", "eqdistinct", "eqdistinct", "hostkeys", "hostkeys", "targetsig", "closurerec", "chain"}
+	"recshared", "recshared", "hashed", "hashed", "eqdistinct", "eqdistinct", "hostkeys", "hostkeys", "targetsig", "closurerec", "chain", "slices", "slices"}
 
 // Not generated: "freevarrec" (a nested function that calls itself through a free variable). Such a project
 // does not load: starlark.ExecFile freezes the module's globals and (*Function).Freeze / (*cell).Freeze of the
